@@ -296,6 +296,7 @@ def cqm_case(ctx, r, B, spec):
               'header JSON text', rp)
         B.add(f'parsecnt cqm {F.hx(text)}', cqm_counts(hv), 'read_header + header use vs parseCqmHeader', ic, 'header counts parsed from the text', rp)
         eocd_case(ctx, B, data, 'ConstrainedQuadraticModel.from_file', ic, rp)
+        zip_case(ctx, B, data, hend, 'ConstrainedQuadraticModel.to_file', ic, rp)
         is_range = variables == list(range(len(variables)))
         lt = 'none' if is_range else F.hx(json.dumps(m.variables.to_serializable()).encode())
         vi = F.content_varinfo(m, np.float64)
@@ -398,6 +399,9 @@ def dqm_case(ctx, r, B, spec, combos=None):
             B.add(f'parsecnt dqm {F.hx(text)}', ('T' if hv['variables'] else 'F') + ' keys=5', 'read_header + header use vs parseDqmHeader', ic,
                   'variables flag parsed from the text', rp)
             eocd_case(ctx, B, npz, 'DiscreteQuadraticModel.from_file (npz blob)', ic, rp)
+            if len(npz) <= 40000:
+                zip_case(ctx, B, npz, 0, 'np.savez (DQM blob)', ic, rp, base=hend + 8)
+                npy_case(ctx, B, npz, 'DQM blob', ic, rp)
             eocd_case(ctx, B, data, 'DiscreteQuadraticModel.from_file (whole file)', ic, rp)
             vt = F.hx(F.vars_text(m.variables))
             lab = '1' if want['variables'] else '0'
@@ -740,6 +744,66 @@ def legacy_case(ctx, B, fn, data, cqm, rp):
           'loaded members, attributes and header check', rp)
 
 
+
+
+# ------------------------------------------------------------------ round 7: the ZIP container and the .npy members at byte level
+
+def zip_entries(arch):
+    """every member of the archive bytes `arch` (offsets relative to its start) as the driver's ZEntry wire text, from the
+    central directory (zipfile) and the raw local headers; returns (wire entries, inflate oracle, [(name, content)])"""
+    import struct
+    zf = zipfile.ZipFile(io.BytesIO(arch))
+    ents, oracle, members = [], [], []
+    for i in zf.infolist():
+        lh = arch[i.header_offset:i.header_offset + 30]
+        sig, lver, lver_hi, flags, method, tm, dt, crc, lcs, lus, nlen, elen = struct.unpack('<4s2B4HL2L2H', lh)
+        lextra = arch[i.header_offset + 30 + nlen:i.header_offset + 30 + nlen + elen]
+        start = i.header_offset + 30 + nlen + elen
+        stored = arch[start:start + i.compress_size]
+        content = zf.read(i.filename)
+        name = arch[i.header_offset + 30:i.header_offset + 30 + nlen]
+        if method != 0:
+            oracle.append(F.hx(stored) + ':' + F.hx(content))
+        ents.append('='.join([F.hx(name), F.hx(content), 's' if method == 0 else F.hx(stored), str(method), str(i.CRC), str(lver + 256 * lver_hi),
+                              str(i.create_version + 256 * i.create_system), str(i.flag_bits), str(tm), str(dt), str(lcs), str(lus),
+                              F.hx(lextra), F.hx(i.extra), str(i.internal_attr), str(i.external_attr)]))
+        members.append((name, content))
+    return ents, ','.join(oracle) or '-', members
+
+
+def zip_case(ctx, B, data, start, site, ic, rp, base=None):
+    """the archive that begins at offset `start` of `data`: (i) the byte-level writer `zipBytes` reproduces it from its
+    entries, (ii) the byte-level reader (`_EndRecData`, directory walk, local headers, real CRC-32; deflate by table)
+    reads the members out of the WHOLE file"""
+    arch = data[start:]
+    try:
+        ents, oracle, members = zip_entries(data)       # offsets as zipfile sees them in these bytes (shifted by `concat`)
+    except Exception as e:  # noqa
+        ctx.fail('property', site, ic, f'zipfile cannot list the archive just written: {type(e).__name__}: {e}', repro=rp)
+        return
+    ctx.tick(f'zip bytes: {len(members)} members, ' + ('deflated' if oracle != '-' else 'stored'))
+    # `base`: the file position the archive was WRITTEN at (its recorded offsets are absolute): `start` for a CQM file, the
+    # position of the BIAS payload for the npz blob of a DQM file (which np.load is handed on its own: negative `concat`)
+    B.add(f'zipwrite {start if base is None else base} {";".join(ents)}', F.hx(arch), f'zipfile (writer) vs zipBytes [{site}]', ic,
+          'archive bytes: local headers, central directory, end record', rp)
+    B.add(f'zipread {F.hx(data)} {oracle}', ','.join(F.hx(n) + '=' + F.hx(c) for n, c in members) or '-',
+          f'zipfile (reader) vs readDirBytes [{site}]', ic, 'members read from the whole file', rp)
+
+
+def npy_case(ctx, B, blob, site, ic, rp):
+    """every `.npy` member of an `.npz` blob: header bytes by `npyHeader`, parse by `parseNpy`"""
+    zf = zipfile.ZipFile(io.BytesIO(blob))
+    from numpy.lib import format as npf
+    for name in zf.namelist():
+        b = zf.read(name)
+        f = io.BytesIO(b)
+        ver = npf.read_magic(f)
+        shape, fortran, dtype = npf.read_array_header_1_0(f) if ver == (1, 0) else npf.read_array_header_2_0(f)
+        hlen = f.tell()
+        sh = '.'.join(map(str, shape)) or '-'
+        ctx.tick(f'npy member {name}: version {ver[0]}.{ver[1]} rank {len(shape)}')
+        B.add(f'npyhdr {dtype.str} {sh}', F.hx(b[:hlen]), f'numpy.lib.format.write_array_header vs npyHeader [{site}]', ic, f'header of {name}', rp)
+        B.add(f'npyparse {F.hx(b)}', f'{dtype.str}:{sh}:{F.hx(b[hlen:])}', f'numpy.lib.format.read_array vs parseNpy [{site}]', ic, f'member {name} parsed', rp)
 
 # ------------------------------------------------------------------ round 7: CQMs reached through histories
 
